@@ -95,9 +95,13 @@ def _gen_history(rng, length):
         if rng.random() < 0.3:
             flags |= rng.choice([bpv7.FLAG_REQ_DELIVERY, bpv7.FLAG_REQ_FORWARDING, bpv7.FLAG_REQ_RECEPTION, bpv7.FLAG_REQ_DELETION,
                                  bpv7.FLAG_REQ_DELIVERY | bpv7.FLAG_REQ_RECEPTION | bpv7.FLAG_REQ_FORWARDING | bpv7.FLAG_REQ_DELETION])
-        hist.append(dict(src=src, time=rng.choice([1, 5, 1000, 2 ** 33]), seq=rng.randint(0, 3), frag=frag,
-                         dest=rng.choice(DESTS), flags=flags, crc=rng.choice([0, 1, 2]), tag='new', plen=rng.choice([4, 9, 30]),
-                         report_to=rng.choice(['dtn:none', 'dtn://rep/r'])))
+        item = dict(src=src, time=rng.choice([1, 5, 1000, 2 ** 33]), seq=rng.randint(0, 3), frag=frag,
+                    dest=rng.choice(DESTS), flags=flags, crc=rng.choice([0, 1, 2]), tag='new', plen=rng.choice([4, 9, 30]),
+                    report_to=rng.choice(['dtn:none', 'dtn://rep/r']))
+        if item['crc'] and rng.random() < 0.2:
+            # a copy damaged in transit (CRC failure) arrives first: it is dropped and leaves no trace, the intact copy is processed
+            hist.append(dict(item, tag='damaged', corrupt=True))
+        hist.append(item)
     return hist
 
 
@@ -121,6 +125,8 @@ def _ident(item):
 def model_step(table, seen, item):
     ''' Reference receive policy.  :return: (decision, reason) '''
     ident = _ident(item)
+    if item.get('corrupt'):
+        return 'ignore', 'crc-failure'
     if item['src'] == NODE:
         return 'ignore', 'own-source'
     if ident in seen:
@@ -145,6 +151,14 @@ def run_history(table, hist, obs):
     for step, item in enumerate(hist):
         payload = bytes(((pos * 17) ^ step ^ 0x33) & 0xFF for pos in range(item['plen']))
         enc = _encode(item, payload)
+        if item.get('corrupt'):
+            # flip one bit of the last payload octet (the payload block carries a CRC)
+            raw = bytearray(enc)
+            idx = len(raw) - 1 - (3 if item['crc'] == 1 else 5) - 1   # break code, CRC bstr (head + 2/4 octets), then the last data octet
+            raw[idx] ^= 0x01
+            enc = bytes(raw)
+            assert bpv7.crc_failures(enc), 'harness: the damaged copy has no CRC failure'
+            obs['damaged_copies'] = obs.get('damaged_copies', 0) + 1
         n_obs, n_cl = len(node.observed), len(node.cl.sent)
         decision, reason = model_step(table, seen_model, item)
         err = node.recv(enc)
